@@ -39,6 +39,10 @@ enum Variant {
     PartialThenFailAt { k: u64, errno: i32, pm: u64 },
     /// short writes / reads and `Interrupted`, which callers must absorb
     Benign { seed: u64, per_mille: u64 },
+    /// two creators for the same destination are alive at once (two cron runs, a re-launched
+    /// command): both write the same container; whichever rename comes last wins, and at every
+    /// instant the destination is absent, the old container or a complete new one
+    TwoCreators,
 }
 
 impl Variant {
@@ -48,6 +52,7 @@ impl Variant {
             Variant::FailAt { .. } => "io-error",
             Variant::PartialThenFailAt { .. } => "partial-write-then-error",
             Variant::Benign { .. } => "benign-short-or-interrupted",
+            Variant::TwoCreators => "two-creators-one-destination",
         }
     }
     fn is_hard(&self) -> bool {
@@ -332,6 +337,9 @@ impl TCheck for C09T {
         std::fs::create_dir_all(&rd).unwrap();
         let (built, n_ops) = build_fixed(&hooks, &logical, &rd, &knobs, 0x6a75_6261_6b6f);
         let variant = match work % 8 {
+            // (one-file packaging only: with several files per container two concurrent creators
+            // legitimately overwrite each other's pack files, which the property does not cover)
+            0 if work % 16 == 8 && packaging == Packaging::BasicOne => Variant::TwoCreators,
             0 | 1 | 2 => Variant::Snapshots,
             3 | 4 => Variant::FailAt {
                 k: rng.below(n_ops + 1),
@@ -415,7 +423,19 @@ impl TCheck for C09T {
                     _ => IoDecision::Proceed,
                 }
             })));
-            let r = gen::build(&sc.logical, &sc.case_dir, NAME, &gen::BuildOpts::default());
+            let r = if matches!(sc.variant, Variant::TwoCreators) {
+                // a second creator of the same container on its own task
+                let sc2 = Arc::clone(sc);
+                let other = shuttle::thread::spawn(move || gen::build(&sc2.logical, &sc2.case_dir, NAME, &gen::BuildOpts::default()).map(|_| ()).map_err(|e| e.to_string()));
+                let mine = gen::build(&sc.logical, &sc.case_dir, NAME, &gen::BuildOpts::default());
+                match other.join() {
+                    Ok(Ok(())) => mine,
+                    Ok(Err(e)) => Err(e.into()),
+                    Err(_) => Err("the second creator panicked".into()),
+                }
+            } else {
+                gen::build(&sc.logical, &sc.case_dir, NAME, &gen::BuildOpts::default())
+            };
             exec::current_hooks().set_io_handler(None);
             let mut rep = BodyReport::default();
             {
